@@ -85,3 +85,122 @@ func sliceReuseHazard(p *core.Prog, f *ssa.Function) string {
 	})
 	return hazard
 }
+
+// retainsParam: callee g keeps parameter idx beyond its own activation — returns it, stores it outside its frame, or
+// binds it into a closure that it returns or stores (one level; enough for accessor-style methods).
+func retainsParam(p *core.Prog, g *ssa.Function, idx int) bool {
+	if g == nil || len(g.Blocks) == 0 || idx >= len(g.Params) {
+		return false
+	}
+	prm := g.Params[idx]
+	escapes := func(v ssa.Value) bool {
+		if v.Referrers() == nil {
+			return false
+		}
+		for _, ref := range *v.Referrers() {
+			switch x := ref.(type) {
+			case *ssa.Return:
+				return true
+			case *ssa.Store:
+				if x.Val == v {
+					if _, local := x.Addr.(*ssa.Alloc); !local {
+						return true
+					}
+				}
+			case *ssa.MapUpdate:
+				if x.Value == v {
+					return true
+				}
+			case *ssa.MakeInterface, *ssa.ChangeType:
+				for _, r2 := range *x.(ssa.Value).Referrers() {
+					if _, ok := r2.(*ssa.Return); ok {
+						return true
+					}
+				}
+			}
+		}
+		return false
+	}
+	if escapes(prm) {
+		return true
+	}
+	for _, ref := range *prm.Referrers() {
+		if mc, ok := ref.(*ssa.MakeClosure); ok && escapes(mc) {
+			return true
+		}
+		// a captured parameter is spilled into a cell first: the closure binds the cell
+		if st, ok := ref.(*ssa.Store); ok && st.Val == ssa.Value(prm) {
+			if cell, ok := st.Addr.(*ssa.Alloc); ok && cell.Referrers() != nil {
+				for _, r2 := range *cell.Referrers() {
+					if mc, ok := r2.(*ssa.MakeClosure); ok && escapes(mc) {
+						return true
+					}
+				}
+			}
+		}
+	}
+	return false
+}
+
+// loopVarRetained: a variable that lives across the iterations of a loop (allocated outside the loop, assigned in it —
+// a range variable under the pre-1.22 semantics the module's go directive selects) has its address kept beyond the
+// iteration: handed to a callee that retains it, bound into a closure that outlives the iteration, or stored. Every
+// keeper then sees the value of the last iteration.
+func loopVarRetained(p *core.Prog, f *ssa.Function) string {
+	loops := naturalLoops(f)
+	if len(loops) == 0 {
+		return ""
+	}
+	out := ""
+	core.Instrs(f, func(in ssa.Instruction) {
+		al, ok := in.(*ssa.Alloc)
+		if !ok || out != "" || al.Referrers() == nil {
+			return
+		}
+		for _, lp := range loops {
+			if lp.body[al.Block()] {
+				continue // allocated per iteration
+			}
+			assigned := false
+			for _, ref := range *al.Referrers() {
+				if st, ok := ref.(*ssa.Store); ok && st.Addr == ssa.Value(al) && lp.body[st.Block()] {
+					assigned = true
+				}
+			}
+			if !assigned {
+				continue
+			}
+			for _, ref := range *al.Referrers() {
+				ri, _ := ref.(ssa.Instruction)
+				if ri == nil || !lp.body[ri.Block()] {
+					continue
+				}
+				switch x := ref.(type) {
+				case ssa.CallInstruction:
+					cal := x.Common().StaticCallee()
+					for i, a := range x.Common().Args {
+						if a == ssa.Value(al) && p.InTarget(cal) && retainsParam(p, cal, i) {
+							out = "the address of a variable shared by all iterations (" + al.Comment + ") is handed to " + core.FuncName(cal) + ", which keeps it, at " + p.InstrPos(x)
+						}
+					}
+				case *ssa.MakeClosure:
+					if x.Referrers() != nil {
+						for _, r2 := range *x.Referrers() {
+							switch y := r2.(type) {
+							case *ssa.Store, *ssa.MapUpdate, *ssa.Return, *ssa.Go, *ssa.Defer:
+								out = "a closure over a variable shared by all iterations (" + al.Comment + ") outlives the iteration at " + p.InstrPos(y)
+							}
+						}
+					}
+				case *ssa.Store:
+					if x.Val == ssa.Value(al) {
+						if _, local := x.Addr.(*ssa.Alloc); !local {
+							out = "the address of a variable shared by all iterations (" + al.Comment + ") is stored at " + p.InstrPos(x)
+						}
+					}
+				}
+			}
+		}
+	})
+	return out
+}
